@@ -14,6 +14,7 @@ import datetime as dtm
 import decimal
 import enum
 import fractions
+import io
 import ipaddress
 import math
 import pathlib
@@ -28,6 +29,25 @@ from typing import Any, Optional
 # tokens: name -> list of representatives (python expressions evaluated once)
 # every documented rule must be constant on a token's representatives (checked by check_classes)
 # ---------------------------------------------------------------------------------------------
+class NonSeek(io.RawIOBase):
+    """a readable binary stream that is not seekable (a pipe, a socket file): IO[bytes] dumps what can be read from it"""
+
+    def __init__(self, data: bytes):
+        self._buf = io.BytesIO(data)
+
+    def readable(self):
+        return True
+
+    def seekable(self):
+        return False
+
+    def readinto(self, b):
+        return self._buf.readinto(b)
+
+    def seek(self, *a):
+        raise io.UnsupportedOperation("seek")
+
+
 class MyStr(str):
     """an instance of a str SUBCLASS: 'any iterable excluding str and Mapping' must exclude it as well"""
 
@@ -45,7 +65,7 @@ class E(enum.Enum):
 
 
 _NS = {"Decimal": Decimal, "Fraction": Fraction, "dtm": dtm, "uuid": uuid, "pathlib": pathlib,
-       "ipaddress": ipaddress, "re": re, "math": math, "E": E, "MyStr": MyStr, "IE": IE}
+       "ipaddress": ipaddress, "re": re, "math": math, "E": E, "MyStr": MyStr, "IE": IE, "io": io, "NonSeek": NonSeek}
 
 TOKENS: dict[str, list[str]] = {
     "none": ["None"],
@@ -74,6 +94,7 @@ TOKENS: dict[str, list[str]] = {
     "s_ea": ["'ea'"], "i5": ["5"], "e_a": ["E.A"], "e_b": ["E.B"],
     "s_sub": ["MyStr('abc')", "MyStr('x y')"],
     "ie_a": ["IE.A"], "ie_b": ["IE.B"],
+    "bio": ["io.BytesIO(b'abc')", "io.BytesIO(b'\\x00\\x01\\x02')"], "rio": ["NonSeek(b'abc')", "NonSeek(b'\\x00\\x01\\x02')"],
     # the rest of the documented "exact lists": path-like classes, IP addresses / networks / interfaces
     "ppp": ["pathlib.PurePosixPath('a/b')"], "pwp": ["pathlib.PureWindowsPath('a/b')"],
     "s_ip6": ["'::1'", "'fe80::1'"], "s_net4": ["'10.0.0.0/30'", "'192.168.0.4/31'"], "s_net6": ["'fe80::/126'"],
@@ -84,6 +105,9 @@ TOKENS: dict[str, list[str]] = {
     "if4": ["ipaddress.IPv4Interface('10.0.0.1/8')", "ipaddress.IPv4Interface('192.168.1.1/16')"], "if6": ["ipaddress.IPv6Interface('fe80::1/64')"],
     "obj": ["object()"],
 }
+
+
+STATEFUL_TOKENS = {"bio", "rio"}
 
 
 def rep(token: str, k: int = 0) -> Any:
@@ -125,7 +149,7 @@ def _str_only(f):
 
 CTORS: dict[str, Any] = {
     "int": int, "float": float, "str": str, "bool": bool, "Decimal": Decimal, "Fraction": Fraction, "complex": complex,
-    "b64": _b64, "b64ba": lambda x: bytearray(_b64(x)),
+    "b64": _b64, "b64ba": lambda x: bytearray(_b64(x)), "b64bio": lambda x: io.BytesIO(_b64(x)),
     "date": _str_only(dtm.date.fromisoformat), "time": _str_only(dtm.time.fromisoformat),
     "datetime": _str_only(dtm.datetime.fromisoformat),
     "timedelta": _td_seconds, "UUID": _str_only(uuid.UUID), "Path": _str_only(pathlib.Path),
@@ -146,6 +170,7 @@ DUMPS: dict[str, Any] = {
     "date": lambda x: x.isoformat(), "time": lambda x: x.isoformat(), "datetime": lambda x: x.isoformat(),
     "timedelta": lambda x: x.total_seconds(), "UUID": str, "IPv4Address": str, "Path": lambda x: x.__fspath__(),
     "Pattern": lambda x: x.pattern,
+    "BytesIO": lambda x: base64.b64encode(x.getvalue()).decode("ascii"), "IObytes": lambda x: base64.b64encode(x.read()).decode("ascii"),
     "object": lambda x: x, "LiteralString": lambda x: x, "ByteString": lambda x: base64.b64encode(x).decode("ascii"),
     "PurePath": lambda x: x.__fspath__(), "PurePosixPath": lambda x: x.__fspath__(), "PosixPath": lambda x: x.__fspath__(),
     "PureWindowsPath": lambda x: x.__fspath__(), "PathLike": lambda x: x.__fspath__(),
@@ -156,14 +181,14 @@ VALUE_PYTYPE = {"int": "int", "float": "float", "str": "str", "bool": "bool", "N
                 "Fraction": "Fraction", "complex": "complex", "bytes": "bytes", "bytearray": "bytearray", "date": "date",
                 "time": "time", "datetime": "datetime", "timedelta": "timedelta", "UUID": "UUID", "IPv4Address": "IPv4Address",
                 "Path": "PosixPath", "Pattern": "Pattern",
-                "LiteralString": "str", "ByteString": "bytes", "PurePath": "PurePosixPath", "PurePosixPath": "PurePosixPath", "PosixPath": "PosixPath",
+                "BytesIO": "BytesIO", "IObytes": "NonSeek", "LiteralString": "str", "ByteString": "bytes", "PurePath": "PurePosixPath", "PurePosixPath": "PurePosixPath", "PosixPath": "PosixPath",
                 "PureWindowsPath": "PureWindowsPath", "PathLike": "PosixPath", "IPv6Address": "IPv6Address", "IPv4Network": "IPv4Network",
                 "IPv6Network": "IPv6Network", "IPv4Interface": "IPv4Interface", "IPv6Interface": "IPv6Interface"}
 # which constructor (CTORS key) the loader of a scalar kind applies
 KIND_CTOR = {"int": "int", "float": "float", "str": "str", "bool": "bool", "Decimal": "Decimal", "Fraction": "Fraction",
              "complex": "complex", "None": "id", "Any": "id", "bytes": "b64", "bytearray": "b64ba", "date": "date", "time": "time",
              "datetime": "datetime", "timedelta": "timedelta", "UUID": "UUID", "Path": "Path", "IPv4Address": "IPv4Address",
-             "Pattern": "re", "object": "id", "LiteralString": "str", "ByteString": "b64", "PurePath": "PurePath", "PurePosixPath": "PurePosixPath",
+             "Pattern": "re", "BytesIO": "b64bio", "IObytes": "b64bio", "object": "id", "LiteralString": "str", "ByteString": "b64", "PurePath": "PurePath", "PurePosixPath": "PurePosixPath",
              "PosixPath": "PosixPath", "PureWindowsPath": "PureWindowsPath", "PathLike": "Path", "IPv6Address": "IPv6Address",
              "IPv4Network": "IPv4Network", "IPv6Network": "IPv6Network", "IPv4Interface": "IPv4Interface", "IPv6Interface": "IPv6Interface"}
 
@@ -173,6 +198,8 @@ def typed_same(a: Any, b: Any) -> bool:
         return False
     if isinstance(a, re.Pattern):
         return a.pattern == b.pattern and a.flags == b.flags
+    if isinstance(a, io.BytesIO):
+        return a.getvalue() == b.getvalue()
     if a != a and b != b:  # noqa: PLR0124
         return True
     if isinstance(a, Decimal) and a.is_nan() and b.is_nan():
